@@ -116,7 +116,13 @@ class Emitter:
                 if rec is not None:
                     return ('c', 'struct ' + self.use_record(rec, name), quals)
             if 'decltype' not in name and re.match(r'^(rlbox::)?(tainted|tainted_volatile|tainted_opaque|tainted_base_impl|sandbox_callback|app_pointer|rlbox_sandbox)<', name):
-                # class template specialisation that the instantiation only uses through pointers/references
+                # class template specialisation that the instantiation only uses through pointers/references;
+                # only accepted when every template argument is itself resolvable (otherwise the spelling is
+                # sugar for some other, possibly complete, specialisation)
+                for a_ in self._split_targs(name):
+                    if re.match(r'^-?\d+$', a_.strip()):
+                        continue
+                    self.resolve(T.parse(a_))
                 cn = struct_tag(name)
                 if cn not in self.struct_defs:
                     self.struct_defs[cn] = 'struct %s; /* incomplete: %s never instantiated here */' % (cn, name)
@@ -125,6 +131,15 @@ class Emitter:
                 return ('c', 'struct ' + cn, quals)
             raise ExtractError('unknown type name %r' % name)
         if k == 'p':
+            if t[1][0] == 'f':
+                try:
+                    return ('p', self.resolve(t[1]), t[2])
+                except ExtractError:
+                    # function pointer whose signature is spelled through alias templates clang left sugared:
+                    # all function pointers share one representation; the signature is dropped (any call through
+                    # such a pointer then fails to compile -> undecided, never silently mis-typed)
+                    self.lowerings['L-fnptr(signature not resolvable -> void(*)(void))'] += 1
+                    return ('p', ('f', ('c', 'void', frozenset()), [], False, frozenset()), t[2])
             return ('p', self.resolve(t[1]), t[2])
         if k == 'ref':
             return ('p', self.resolve(t[1]), frozenset())
@@ -262,7 +277,7 @@ class Emitter:
     def use_record(self, rec, spelled=None):
         rid = rec['id']
         disp = self.tu.rec_name.get(rid, rec.get('name', rid))
-        cn = struct_tag(spelled or disp)
+        cn = struct_tag(disp if ('<' in disp or '::' in disp) and '?' not in disp else (spelled or disp))
         if cn in self.struct_defs:
             return cn
         self.struct_defs[cn] = None     # in progress (pointers to self are fine)
@@ -652,6 +667,12 @@ class Emitter:
             if not ii:
                 return extra + p + 'return;\n'
             e = ii[0]
+            nv = self.nrvo_var(e)
+            if nv is not None:
+                # named return value optimisation as marked by clang: the local IS the return object
+                # (no move construction, no destructor run for the local)
+                self.lowerings['L-dtor(NRVO: local returned in place)'] += 1
+                return extra + p + 'return %s;\n' % nv
             if self.returns_ref(fn):
                 return extra + p + 'return &(%s);\n' % self.E(e)
             rt = self.ret_cxx(fn)
@@ -692,6 +713,21 @@ class Emitter:
         if k in ('CXXTryStmt', 'CXXThrowExpr', 'SwitchStmt', 'DoStmt', 'GotoStmt', 'LabelStmt'):
             raise ExtractError('unsupported statement ' + k)
         return p + self.E(n) + ';\n'
+
+    def nrvo_var(self, e):
+        if e.get('kind') not in ('CXXConstructExpr',):
+            return None
+        ii = inner(e)
+        if len(ii) != 1:
+            return None
+        c = ii[0]
+        while c.get('kind') in ('ImplicitCastExpr', 'ParenExpr') and inner(c):
+            c = inner(c)[0]
+        if c.get('kind') == 'DeclRefExpr' and c['referencedDecl'].get('kind') == 'VarDecl':
+            d = self.tu.decls.get(c['referencedDecl']['id'])
+            if d is not None and d.get('nrvo'):
+                return d['name']
+        return None
 
     def loop_contract(self, fn):
         self.loop_ordinal = getattr(self, 'loop_ordinal', {})
@@ -806,6 +842,15 @@ class Emitter:
         ct = self.ctype_of(t)
         if self.is_ref_type(t):
             return p + '%s = &(%s);\n' % (self.cdecl(ct, name), self.E(init))
+        if not d.get('nrvo'):
+            tq = T.strip_quals(tparsed)
+            rec0 = self.tu.find_record(tq[1]) if tq[0] == 'n' else None
+            if rec0 is not None:
+                dd = rec0.get('definitionData', {}).get('dtor', {})
+                if dd and not dd.get('trivial') and not dd.get('irrelevant'):
+                    hook = self.opts.get('local_dtor')
+                    if not (hook and hook(self, d, rec0, fn)):
+                        raise ExtractError('local %s of type %s has a non-trivial destructor (no lowering)' % (name, t))
         if init is None:
             return p + self.cdecl(ct, name) + ';\n'
         if init['kind'] in ('CXXConstructExpr', 'CXXTemporaryObjectExpr') and self.ctor_noop(init):
